@@ -934,6 +934,18 @@ func (state *RuntimeState) checkAuth(w http.ResponseWriter, r *http.Request, req
 				}
 			}
 			if authData.Username != "" {
+				// The second factor handlers upgrade whatever session
+				// cookie comes with the request: a cookie of another user
+				// must not ride along with this certificate.
+				if cookie, err := r.Cookie(authCookieName); err == nil {
+					info, err := state.getAuthInfoFromAuthJWT(cookie.Value)
+					if err == nil && info.Username != authData.Username {
+						state.writeFailureResponse(w, r,
+							http.StatusUnauthorized, "")
+						return nil, errors.New(
+							"certificate and cookie of different users")
+					}
+				}
 				state.logger.Debugf(4, "returning tls cert authinfo")
 				return &authData, nil
 			}
